@@ -53,6 +53,13 @@ CHECKS = {
   text="Decides, for every string, totality and 'accepts only what it denotes' for the sat notations (degree, decimal, percentile) and for decimal amounts - the parsers whose bugs are arithmetic (overflowing components, non-finite floats). Found and replayed four genuine defects on the pinned tree (see known_findings.txt).",
   design_ref="DESIGN.md §3 C31",
   note="Fragment of C31: rune names/IDs, satpoints, inscription IDs, outgoing, explorer queries are not covered. String primitives are stubs constrained only by facts valid for all strings; strings < 2^32 chars."),
+ "C32": dict(
+  engine="E2-mir2smt",
+  technique="path-wise symbolic execution of the MIR of Rune's Display/FromStr (strings as explicit symbolic char sequences), is_reserved/reserved and commitment into SMT; native replay",
+  category="model_checking",
+  text="Solver verdict that Rune::from_str accepts exactly the A-Z names that fit u128 and returns their modified base-26 value (every char sequence of the listed lengths up to 29), that printing then parsing returns the same rune for all names up to 7/8 letters and for u128::MAX, that reserved names are exactly those >= the first 27-letter name with Rune::reserved total and exact, and that commitment is the minimal little-endian encoding for all u128.",
+  design_ref="DESIGN.md §3 C32",
+  note="Partial: print->parse for names longer than 8 letters and everything about spacers (SpacedRune) is outside the decided bound (solver limits, stated in the evidence)."),
 }
 
 NOT_APPLICABLE = {
